@@ -106,6 +106,57 @@ pub fn deep_elision(c: &mut Ctx, b: &Budget, prop: &str) {
     }
 }
 
+/// the special shapes (gen::special_shapes) through the operation each property is about
+pub fn special_other(c: &mut Ctx, b: &Budget, prop: &str) {
+    for round in 0..(if b.thorough { 12 } else { 3 }) {
+        c.begin("special-shapes");
+        let shapes = special_shapes(c);
+        for (name, r) in shapes {
+            let orig = match c.env(&r) { Some(e) => e, None => continue };
+            let _ = round;
+            match prop {
+                "C01" => { observe(c, &r); let v = check_spec_digests(&orig); c.check("spec-digest", v.is_ok(), "spec-digest", || format!("{}: {}", name, v.unwrap_err())); }
+                "C04" => { observe(c, &r); let v = check_grammar(&orig); c.check("grammar", v.is_ok(), "grammar", || format!("{}: {}", name, v.unwrap_err())); }
+                "C05" => crate::props::roundtrip(c, &r),
+                "C13" => {
+                    for (op, back) in [("compress", "uncompress"), ("compress_subject", "uncompress_subject")] {
+                        let z = c.assign(&format!("{} {}", op, r));
+                        c.no_panic(&z, "compressing");
+                        if let Some(ze) = c.env(&z) {
+                            c.obs(&format!("digest {}", z));
+                            c.check("digest-preserved", ze.digest() == orig.digest(), "digest-preserved", || format!("{} of {}: {} -> {}", op, name, shape(&orig), shape(&ze)));
+                            let u = c.assign(&format!("{} {}", back, z));
+                            c.no_panic(&u, "uncompressing");
+                            c.obs(&format!("eq {} {}", r, u));
+                            // (where compressing was a no-op - the subject is compressed already - undoing it undoes the earlier compression)
+                            let (okv, shown) = (ze.is_identical_to(&orig) || c.env(&u).map(|x| x.is_identical_to(&orig)).unwrap_or(false), c.val(&u).show());
+                            c.check("roundtrip-identical", okv, "roundtrip-identical", || format!("{}({}(e)) on {}: {}", back, op, name, &shown[..shown.len().min(160)]));
+                        }
+                    }
+                }
+                "C08" => {
+                    let n = hex::encode(c.rng.bytes(12));
+                    let we = c.assign(&format!("encrypt {} {} {}", r, KEY1, n));
+                    let wd = c.assign(&format!("decrypt {} {}", we, KEY1));
+                    c.obs(&format!("eq {} {}", r, wd));
+                    let (okv, shown) = (c.env(&wd).map(|x| x.is_identical_to(&orig)).unwrap_or(false), c.val(&wd).show());
+                    c.check("whole-roundtrip", okv, "whole-roundtrip", || format!("{}: {}", name, &shown[..shown.len().min(160)]));
+                    if !orig.subject().is_encrypted() && !orig.subject().is_elided() {
+                        let se = c.assign(&format!("encrypt_subject {} {} {}", r, KEY1, n));
+                        c.no_panic(&se, "encrypting the subject");
+                        let sd = c.assign(&format!("decrypt_subject {} {}", se, KEY1));
+                        c.obs(&format!("eq {} {}", r, sd));
+                        let (okv, shown) = (c.env(&sd).map(|x| x.is_identical_to(&orig)).unwrap_or(false), c.val(&sd).show());
+                        c.check("decrypt-identical", okv, "decrypt-identical", || format!("{}: {}", name, &shown[..shown.len().min(160)]));
+                    }
+                }
+                _ => {}
+            }
+        }
+        c.end();
+    }
+}
+
 /// the same deep structures through the other operations that recurse over an envelope or decode one
 pub fn deep_other(c: &mut Ctx, b: &Budget, prop: &str) {
     let cfg = GenCfg::default();
@@ -564,6 +615,27 @@ pub(crate) fn c12_one(c: &mut Ctx, cfg: &GenCfg, e: &str, orig: &Envelope, all: 
                             }
                         }
                     }
+                    // the single-target doors are the set doors with one element - for every target, the root included, and for
+                    // proofs that are not proofs of this envelope at all
+                    {
+                        let mut targets: Vec<Envelope> = ts.split(',').filter(|k| *k != "-").filter_map(|k| c.env(k)).collect();
+                        targets.push(orig.clone());
+                        let foreign = Envelope::new("another document").add_assertion("k", "v");
+                        let foreign_proof = foreign.proof_contains_target(&Envelope::new("v")).unwrap_or(foreign.clone());
+                        let candidates: Vec<(&str, Envelope)> = vec![("its proof", pr.clone()), ("the envelope itself", orig.clone()), ("a proof of another envelope", foreign_proof), ("an unrelated leaf", Envelope::new("unrelated")), ("the elided root", orig.elide())];
+                        for t in targets.iter().take(3) {
+                            let one: HashSet<Digest> = [t.digest().into_owned()].into_iter().collect();
+                            let p1 = guarded(|| orig.proof_contains_target(t).map(|x| x.tagged_cbor().to_cbor_data()));
+                            let p2 = guarded(|| orig.proof_contains_set(&one).map(|x| x.tagged_cbor().to_cbor_data()));
+                            c.check("variant-agrees", p1 == p2, "variant-differs:proof_contains_target", || format!("target {}", shape(t)));
+                            for (name, cand) in &candidates {
+                                let v1 = guarded(|| orig.confirm_contains_target(t, cand));
+                                let v2 = guarded(|| orig.confirm_contains_set(&one, cand));
+                                c.check("variant-agrees", v1 == v2, "variant-differs:confirm_contains_target", || format!("target {} against {}: single-target form says {:?}, set form {:?}", shape(t), name, v1, v2));
+                                if v1 == Ok(true) { c.check("other-root-rejected", cand.digest() == orig.digest(), "other-root-rejected", || format!("{} accepted although its root digest differs", name)); }
+                            }
+                        }
+                    }
                     // minimal disclosure
                     let m = check_minimal(&orig, &pr, &tset);
                     let key = "proof-minimal";
@@ -783,10 +855,42 @@ fn c14_deep(c: &mut Ctx, b: &Budget) {
     }
 }
 
+/// single leaves compared with themselves, with their decoded copies and with each other: values whose in-memory form is not
+/// their encoding (NaN, text that is not NFC, reducible floats), every leaf of the alphabet, known values
+fn c14_leaves(c: &mut Ctx, _b: &Budget) {
+    c.begin("leaves");
+    let mut leaves: Vec<(String, Envelope)> = vec![];
+    for t in ["", "Hello", "Cafe\u{301}", "\u{212b}ngstr\u{f6}m", "\u{1112}\u{1161}\u{11ab}", "a\u{323}\u{307}"] { leaves.push((format!("text {:?}", t), Envelope::new(t))); }
+    for v in [f64::NAN, -f64::NAN, f64::INFINITY, 0.0, -0.0, 1.5, 3.0e9, 1.0e300] { leaves.push((format!("f64 {}", v), Envelope::new(v))); }
+    leaves.push(("array with NaN".into(), Envelope::new(CBOR::from(vec![CBOR::from(1), CBOR::from(f64::NAN)]))));
+    leaves.push(("array with non-NFC text".into(), Envelope::new(CBOR::from(vec![CBOR::from("e\u{301}")]))));
+    { let mut m = dcbor::Map::new(); m.insert("k", f64::NAN); m.insert("e\u{301}", 1); leaves.push(("map with NaN and non-NFC key".into(), Envelope::new(m))); }
+    for v in [0u64, 1, 24, 65536] { leaves.push((format!("known value {}", v), Envelope::new(KnownValue::new(v)))); }
+    for l in leaf_alphabet().into_iter().take(40) { if let Ok(cb) = CBOR::try_from_data(hex::decode(&l).unwrap()) { leaves.push((format!("alphabet {}", l), Envelope::new(cb))); } }
+    for (name, e) in &leaves {
+        let copy = e.clone();
+        let decoded = Envelope::try_from_cbor_data(e.tagged_cbor().to_cbor_data()).ok();
+        let rebuilt = e.as_leaf().map(Envelope::new);
+        for (what, other) in [("a clone", Some(copy)), ("its decoded copy", decoded), ("a leaf rebuilt from its value", rebuilt)] {
+            if let Some(o) = other {
+                let r = guarded(|| (e.is_equivalent_to(&o), e.is_identical_to(&o), *e == o, o.is_equivalent_to(e), e.digest() == o.digest(), e.structural_digest() == o.structural_digest()));
+                c.check("equivalent-iff-digest", matches!(r, Ok((eq, id, op, sym, d, sd)) if d && sd && eq && id && op && sym), "equivalent-iff-digest", || format!("{} compared with {}: (equivalent, identical, ==, symmetric, digests, structural digests) = {:?}", name, what, r));
+            }
+        }
+    }
+    // different leaves are different, whichever way round
+    for (i, (n1, e1)) in leaves.iter().enumerate() { for (n2, e2) in leaves.iter().skip(i + 1).take(6) {
+        if e1.digest() != e2.digest() { let r = guarded(|| (e1.is_equivalent_to(e2), e1.is_identical_to(e2), e2.is_equivalent_to(e1))); c.check("equivalent-iff-digest", r == Ok((false, false, false)), "equivalent-iff-digest", || format!("{} vs {}: {:?}", n1, n2, r)); }
+    } }
+    c.count_n("leaves-compared", leaves.len() as u64);
+    c.end();
+}
+
 /// C14 - equivalence and identity
 pub fn c14(c: &mut Ctx, b: &Budget) {
     let cfg = GenCfg::default();
     c14_deep(c, b);
+    c14_leaves(c, b);
     for sc in 0..b.scenarios {
         c.begin("relations");
         let e = gen_env(c, &cfg, 3);
